@@ -113,7 +113,7 @@ func (sc *Scenario) Materialize(root string, resultDir string) ([]string, error)
 			lines := strings.Split(string(b), "\n")
 			for i := 0; i < len(lines); i++ {
 				l := lines[i]
-				if len(l) >= 3 && strings.ToUpper(strings.TrimSpace(l[0:3])) == t && (i > 0 || name == "PARCAP.TRU") {
+				if (sc.ReducedTablesOnly == "" || sc.ReducedTablesOnly == name) && len(l) >= 3 && strings.ToUpper(strings.TrimSpace(l[0:3])) == t && (i > 0 || name == "PARCAP.TRU") {
 					if name == "PARCAP.TRU" {
 						i++ // the capillary table has two lines per texture
 					}
